@@ -1,6 +1,6 @@
 import TTModel.Proto
 import TTModel.FS
-import TTGen.SavePlan
+import TTGen.C18_SavePlan
 open TT.FS TT.Proto
 
 def contentChar : Content → Char
@@ -46,7 +46,7 @@ def handle (line : String) : String :=
     match parseBool sf, parseBool ov, parseSt st with
     | some sf, some ov, some s =>
       let f : Flags := ⟨sf, ov⟩
-      let p := TTGen.SavePlan.prog
+      let p := TTGen.C18_SavePlan.prog
       let ops := effectiveOps f s p
       let states := (List.range (p.depth + 1)).map fun k => showSt (runProg f s p k)
       s!"ops {";".intercalate (ops.map showOp)} states {",".intercalate states} depth {p.depth}"
